@@ -16,7 +16,9 @@
    transcription refines the property, invariant ImplRefines):
      ap/ip  q = the shared parsec_list_t, head first.
             sched_ap_schedule  = parsec_list_chain_sorted (any distance)
-            sched_ip_schedule  = chain_sorted when distance = 0, parsec_list_chain_back otherwise (IpChainBack)
+            sched_ip_schedule  = parsec_list_chain_sorted (any distance); before the repair "inverse-priority scheduler
+                                 keeps its list sorted when tasks are rescheduled with a distance" it was chain_sorted
+                                 only for distance 0 and parsec_list_chain_back otherwise (IpChainBack = TRUE)
             sched_ap_select    = pop_front          sched_ip_select = pop_back
      spq    q = list of [d, tasks] priority lists kept in ascending d (never removed once created);
             sched_spq_schedule = find/insert the list of that distance, chain_sorted into it
@@ -32,7 +34,7 @@ CONSTANTS Modes,       \* subset of {"ap", "ip", "spq"}: the module is chosen in
           MaxRing,     \* longest ring handed to one schedule call
           MaxTasks,    \* total number of tasks scheduled in one behaviour
           MaxLen,      \* number of operations in one behaviour
-          IpChainBack, \* TRUE: ip appends re-scheduled (distance > 0) rings at the back, as the code does
+          IpChainBack, \* TRUE: ip appends re-scheduled (distance > 0) rings at the back (the code before its repair)
           KeepHist     \* TRUE: record the operation sequence (behaviours for replay); FALSE: state graph only
 VARIABLES mode, pend, q, nsched, hist
 vars == <<mode, pend, q, nsched, hist>>
